@@ -533,7 +533,11 @@ def gen_actor_case(rng, name, props, logger=False):
                 owners[oid2] = owners[oid]
             elif c < 0.70 and owners:
                 oid = rng.choice(list(owners))
-                ops.append({"op": "kill", "oid": oid, "code": "k%d" % oid})
+                if rng.random() < 0.35:
+                    # kill!: queued, through an extra owner
+                    ops.append({"op": "dkill", "oid": oid, "code": "d%d" % ids.next("item")})
+                else:
+                    ops.append({"op": "kill", "oid": oid, "code": "k%d" % oid})
             elif c < 0.76:
                 rid = ids.next("rid")
                 kind = rng.choice(["plain", "plain", "to", "someto", "somedo", "toprep"])
